@@ -26,6 +26,7 @@ type fake struct {
 	failClose  bool
 	reads      int
 	writes     int
+	exhausted  bool // the input has ended: reads report end-of-stream
 }
 
 var errFakeClose = errors.New("fake close failure")
@@ -34,6 +35,9 @@ func (f *fake) Read(p []byte) (int, error) {
 	f.reads++
 	if f.closeCount > 0 {
 		return 0, io.ErrClosedPipe
+	}
+	if f.exhausted {
+		return 0, io.EOF
 	}
 	n := copy(p, "0123456789abcdef")
 	return n, nil
@@ -456,6 +460,17 @@ func TestWrapperCloseOnce(t *testing.T) {
 				buf := make([]byte, rapid.IntRange(0, 40).Draw(rt, "n"))
 				k, err := r.Read(buf)
 				m.history = append(m.history, fmt.Sprintf("Read %v -> %d,%v", n, k, err))
+			},
+			"endOfInput": func(rt *rapid.T) {
+				// the resource under a drawn node has no more input: reads through any wrapper now report end-of-stream,
+				// which says nothing about whether anything was closed
+				n := pick("node")
+				acc := map[*fake]bool{}
+				m.leaves(n, acc)
+				for f := range acc {
+					f.exhausted = true
+				}
+				m.history = append(m.history, fmt.Sprintf("EndOfInput under %v", n))
 			},
 			"write": func(rt *rapid.T) {
 				n := pick("node")
